@@ -18,6 +18,7 @@ import (
 	"github.com/0xReLogic/Helios/internal/metrics"
 	"github.com/0xReLogic/Helios/internal/ratelimiter"
 	"github.com/0xReLogic/Helios/internal/utils"
+	"github.com/0xReLogic/Helios/internal/vhook"
 )
 
 // Strategy defines the interface for load balancing strategies
@@ -325,6 +326,7 @@ func (lb *LoadBalancer) checkBackendsHealth() {
 	lb.mutex.RUnlock()
 
 	for _, backend := range backends {
+		vhook.Yield("lb.probe.add")
 		lb.healthCheckWg.Add(1)
 		go func(b *Backend) {
 			defer lb.healthCheckWg.Done()
@@ -347,6 +349,7 @@ func (lb *LoadBalancer) checkBackendHealth(backend *Backend) {
 		return
 	}
 
+	vhook.Yield("lb.probe.send")
 	resp, err := lb.performHealthCheck(backend)
 	if err != nil {
 		lb.handleHealthCheckFailure(backend, err)
@@ -392,6 +395,7 @@ func (lb *LoadBalancer) processHealthCheckResponse(backend *Backend, resp *http.
 		return
 	}
 
+	vhook.Yield("lb.probe.ok")
 	// If we get here, the backend is healthy
 	backend.Mutex.Lock()
 	wasUnhealthy := !backend.IsHealthy
@@ -513,6 +517,7 @@ func (lb *LoadBalancer) NextBackend(r *http.Request) *Backend {
 
 // MarkBackendUnhealthy marks a backend as unhealthy for a specified duration
 func (lb *LoadBalancer) MarkBackendUnhealthy(backend *Backend, duration time.Duration) {
+	vhook.Yield("lb.mark.enter")
 	backend.Mutex.Lock()
 	defer backend.Mutex.Unlock()
 
@@ -536,12 +541,14 @@ func (lb *LoadBalancer) IsBackendHealthy(backend *Backend) bool {
 
 	// If it's marked as unhealthy, check if the unhealthy period has expired
 	if !isHealthy && time.Now().After(unhealthyUntil) {
+		vhook.Yield("lb.expire.upgrade")
 		// The unhealthy period has expired, mark it as healthy again
 		backend.Mutex.Lock()
 		// Double-check after acquiring write lock to prevent race condition
 		if !backend.IsHealthy && time.Now().After(backend.UnhealthyUntil) {
 			backend.IsHealthy = true
 			backend.Mutex.Unlock()
+			vhook.Yield("lb.expire.metrics")
 
 			// Update metrics to reflect healthy status
 			if lb.metricsCollector != nil {
@@ -664,6 +671,7 @@ func (lb *LoadBalancer) findHealthyBackend(r *http.Request) *Backend {
 			return nil
 		}
 
+		vhook.Yield("lb.find.picked")
 		if lb.IsBackendHealthy(backend) {
 			return backend
 		}
@@ -675,6 +683,7 @@ func (lb *LoadBalancer) findHealthyBackend(r *http.Request) *Backend {
 func (lb *LoadBalancer) proxyRequest(backend *Backend, w http.ResponseWriter, r *http.Request, startTime time.Time) error {
 	// Track the active connection
 	backend.IncrementConnections()
+	vhook.Yield("lb.proxy.inc")
 	lb.metricsCollector.UpdateBackendConnections(backend.Name, backend.GetActiveConnections())
 
 	// Create a custom response writer to capture the status code
@@ -688,6 +697,7 @@ func (lb *LoadBalancer) proxyRequest(backend *Backend, w http.ResponseWriter, r 
 
 	// Decrement the connection count when done
 	backend.DecrementConnections()
+	vhook.Yield("lb.proxy.dec")
 	lb.metricsCollector.UpdateBackendConnections(backend.Name, backend.GetActiveConnections())
 
 	// Record metrics and handle passive health checks
@@ -735,6 +745,7 @@ func (lb *LoadBalancer) handlePassiveHealthCheck(backend *Backend, statusCode in
 		Int("threshold", lb.healthChecks.passiveThreshold).
 		Msg("backend returned server error")
 
+	vhook.Yield("lb.passive.counted")
 	// If failure count exceeds threshold, mark as unhealthy
 	if failureCount >= lb.healthChecks.passiveThreshold {
 		lb.MarkBackendUnhealthy(backend, lb.healthChecks.passiveTimeout)
@@ -771,6 +782,7 @@ func (rw *responseWriter) Hijack() (net.Conn, *bufio.ReadWriter, error) {
 func (lb *LoadBalancer) Stop() {
 	logging.L().Info().Msg("shutting down load balancer")
 	lb.cancel()
+	vhook.Yield("lb.stop.cancelled")
 	lb.healthCheckWg.Wait()
 
 	// Shutdown WebSocket pool if enabled
